@@ -197,7 +197,13 @@ func (u *ut0311) SendUDP(addr *net.UDPAddr, request []byte) ([]byte, error) {
 	dialer := net.Dialer{
 		Deadline:  deadline,
 		LocalAddr: bind,
-		Control: func(network, address string, connection syscall.RawConn) (err error) {
+	}
+
+	// NTS: address reuse is only required (and only safe) for a fixed bind port - with an ephemeral port
+	//      it allows concurrent requests to the same controller to be allocated the same local port, in
+	//      which case the replies are all delivered to one of the sockets
+	if bind.Port != 0 {
+		dialer.Control = func(network, address string, connection syscall.RawConn) (err error) {
 			var operr error
 
 			f := func(fd uintptr) {
@@ -209,7 +215,7 @@ func (u *ut0311) SendUDP(addr *net.UDPAddr, request []byte) ([]byte, error) {
 			} else {
 				return operr
 			}
-		},
+		}
 	}
 
 	if connection, err := dialer.Dial("udp4", address); err != nil {
@@ -277,7 +283,13 @@ func (u *ut0311) SendTCP(addr *net.TCPAddr, request []byte) ([]byte, error) {
 	dialer := net.Dialer{
 		Deadline:  deadline,
 		LocalAddr: bind,
-		Control: func(network, address string, connection syscall.RawConn) (err error) {
+	}
+
+	// NTS: address reuse is only required (and only safe) for a fixed bind port - with an ephemeral port
+	//      it allows concurrent requests to the same controller to be allocated the same local port, in
+	//      which case the replies are all delivered to one of the sockets
+	if bind.Port != 0 {
+		dialer.Control = func(network, address string, connection syscall.RawConn) (err error) {
 			var operr error
 
 			f := func(fd uintptr) {
@@ -289,7 +301,7 @@ func (u *ut0311) SendTCP(addr *net.TCPAddr, request []byte) ([]byte, error) {
 			} else {
 				return operr
 			}
-		},
+		}
 	}
 
 	if connection, err := dialer.Dial("tcp4", address); err != nil {
